@@ -8,7 +8,7 @@ From Coquelicot Require Import Complex.
 Require Import MPSV.Eval.EvalModel MPSV.Eval.EvalExact MPSV.Eval.EvalRounded MPSV.Eval.EvalTwin.
 Require Import MPSV.Eval.EvalBound MPSV.Eval.EvalSparse MPSV.Eval.EvalCheb.
 Require Import MPSV.Eval.EvalSecPoly MPSV.Eval.EvalChebEst MPSV.Eval.EvalB64Model MPSV.Eval.EvalB64.
-Require Import MPSV.Eval.EvalTwinBounds MPSV.Eval.EvalB64Link.
+Require Import MPSV.Eval.EvalTwinBounds MPSV.Eval.EvalB64Link MPSV.Eval.EvalSecGuard.
 From Flocq Require Import Core IEEE754.BinarySingleNaN.
 Import ListNotations.
 Local Open Scope R_scope.
@@ -226,6 +226,21 @@ Theorem C14_secular_poly_estimate_bounds_error :
     Cmod (p - sec_poly_exact ab x)%C <= e.
 Proof. exact secular_poly_estimate_bounds_error. Qed.
 Print Assumptions C14_secular_poly_estimate_bounds_error.
+
+(* ... and the guard factor cannot be independent of n (necessity of the n-dependence of the hypothesis, as C14_sparse_estimate_needs_degree_factor for Horner).  In the
+   arithmetic that scales every result by 1 + delta (standard model, mu = delta) and with the estimate computed
+   exactly, the input 2/(x-0) + 0/(x-0) + ... - 1 with n = m+1 terms at x = 1 errs by more than the coded estimate with
+   declared unit u4 = c * delta as soon as 5c < 2n: the accuracy in excess of the declared unit must be at least
+   2n/5 (about log2 n - 2 guard bits). *)
+Theorem C14_secular_estimate_needs_growing_guard : forall (delta c : R) (m : nat),
+  0 < delta -> 0 <= c -> INR (S m) * delta <= 1 / 2 -> 5 * c < 2 * INR (S m) ->
+  std_model delta (sarith delta) /\
+  exists p e, sec_poly_est_fl (sarith delta) exact_rarith (c * delta) (guard_input m) (RtoC 1) = Some (p, e) /\
+    e < Cmod (p - sec_poly_exact (guard_input m) (RtoC 1))%C.
+Proof. exact secular_estimate_needs_growing_guard. Qed.
+Print Assumptions C14_secular_estimate_needs_growing_guard.
+Example C14_ex_guard_input : guard_input 2 = [(RtoC 2, RtoC 0); (RtoC 0, RtoC 0); (RtoC 0, RtoC 0)].
+Proof. reflexivity. Qed.
 
 (* ------------------------------------------------------------------ Chebyshev estimate *)
 
